@@ -9,12 +9,15 @@ import subprocess
 
 import verif as V
 
+# number of TLC trace processes run at once (the design model runs next to them on one more)
+NPROC = int(os.environ.get("VERIF_TLC_PROCS", V.NCPU))
+
 # harness group numbers (harness/bspline.cpp) and their descriptors
 GROUPS = {1: "SO3", 2: "SE2", 3: "SE3", 8: "R:3", 9: "B(SO3,R:3)", 20: "B(SE2,R:1,SO3)", 21: "R:1"}
 
 PLAN = {
-    # cases per (group, degree): case c has N = random | K+1 | 30 | K+2 for c % 4 = 0..3; (t0, dt) cycle through all 12
-    # combinations; difference profiles cycle generic | small | mixed (zeros, tiny, large) | near the injectivity radius
+    # cases per (group, degree): case c has N = random | K+1 | 30 | K+2 for c % 4 = 0..3; (t0, dt) cycle through the
+    # admissible combinations (see harness: combos()); difference profiles cycle generic | small | mixed (zeros, tiny, large) | near the injectivity radius
     "quick": dict(gs=[1, 2, 3, 8, 9], Ks=[1, 2, 3, 4, 5, 6], cases=2, nrand=5, nlocal=1, maxn=9, chunk=300,
                   model_cfg="BSplineIndex_quick.cfg", variants=["ge", "tmax"]),
     "thorough": dict(gs=[1, 2, 3, 8, 9, 20, 21], Ks=[1, 2, 3, 4, 5, 6], cases=10, nrand=30, nlocal=3, maxn=29, chunk=400, dense=1,
@@ -27,6 +30,9 @@ ASSUME = [
     "the logarithms of the control-point differences are witnesses logged from the library (rminus) and verified by the specification: exp(hat v) = g_{j-1}^-1 g_j to 1e-13, "
     "rotation norm < pi; a rejected witness is a tool failure, not a verdict; the residual (< 1/16 of the value tolerance) is added to the tolerances",
     "within 4 ulp (of the largest of |t|, |t0|, |t - t0|) of a knot the outputs of either neighbouring window are accepted",
+    "(t0, dt) strata: t0 in {0, 1, -1, -3.7, 1e3, +-(1.7e9 + 0.123456789), 1e12} x dt in {0.001, 0.01, 0.1, 1/3, 1, 7, 10} restricted to ulp(t0) <= 1e-3 dt; "
+    "the oracle is evaluated at the exact rational value of every double t against the exact knots t0 + i dt (t0, dt = exact values of the doubles); "
+    "pairs of times further apart than 2^-36 dt (large |t0|) are compared after allowing for the motion of the exact curve between them",
     "derivative outputs: 1e-7 relative to the largest entry of the exact vector plus an absolute floor 1e-9/dt^p (exact value zero or nearly zero); "
     "outside [t_min, t_max] only the value is specified (end value)",
     "design model BSplineIndex: exact rational arithmetic, real-valued control points (unit sequences, constant, ramp), K <= 3, N <= 8",
@@ -115,7 +121,7 @@ def validate(oc, traces, chunk, workdir, timeout=3000):
         for cp, idx in chunks:
             work.append((cp, idx, meta, lines, prog))
     work.sort(key=lambda w: -os.path.getsize(w[0]))
-    with cf.ThreadPoolExecutor(V.NCPU) as ex:
+    with cf.ThreadPoolExecutor(NPROC) as ex:
         futs = {ex.submit(V.validate_chunk, "TraceBSpline", "TraceBSpline.cfg", w[0], workdir, timeout): w for w in work}
         for f in cf.as_completed(futs):
             cp, idx, meta, lines, prog = futs[f]
@@ -164,19 +170,39 @@ def validate(oc, traces, chunk, workdir, timeout=3000):
                     oc.samples.append(smp)
 
 
+BIG_REQUIRED = ["eval|inside", "eval|knot", "eval|below", "eval|above", "smooth|knot", "smooth|endknot", "local|out", "local|edge", "local|in",
+                "equiv|inside", "equiv|knot", "const|inside", "const|knot"]
+
+
+def missing_big_cells(cov):
+    """the large-|t0| stratum (|t0| >= 1e9 with dt <= 0.01, cells ending in @big) must be visited by every clause family in
+    every tier: event | position summed over groups and degrees"""
+    have = set()
+    for k, n in cov.items():
+        if n > 0 and k.endswith("@big"):
+            parts = k[:-4].split("|")
+            if len(parts) >= 4:
+                have.add(parts[1] + "|" + parts[3].split(".")[0])
+    return [c for c in BIG_REQUIRED if c not in have]
+
+
 def missing_cells(cov, groups, Ks):
     """cells that a tier is expected to visit (reported in quick, required in thorough)"""
     miss = []
+
+    def count(key):
+        return cov.get(key, 0) + cov.get(key + "@big", 0)
+
     for g in groups:
         for K in Ks:
             for cell in ([f"eval|K{K}|{p}" for p in ("below", "above", "inside", "knot")]
                          + [f"smooth|K{K}|knot", f"smooth|K{K}|endknot", f"local|K{K}|out", f"local|K{K}|edge", f"local|K{K}|in",
                             f"equiv|K{K}|inside", f"equiv|K{K}|knot", f"const|K{K}|inside", f"const|K{K}|knot"]):
-                if cov.get(f"{g}|{cell}", 0) == 0:
+                if count(f"{g}|{cell}") + count(f"{g}|{cell}.coarse") == 0:
                     miss.append(f"{g}|{cell}")
-    gen = [k.split("|")[-1] for k in cov if "|spline|" in k and "|gen," in k]
-    for t0c in ("t0=0", "t0<0", "t0>=100"):
-        for dtc in ("dt<.2", "dt<.5", "dt<2", "dt>=2"):
+    gen = [k.split("|", 3)[-1].replace("@big", "") for k in cov if "|spline|" in k and "|gen," in k]
+    for t0c in ("t0=0", "t0<0", "t0>0", "t0>=100", "|t0|>=1e9"):
+        for dtc in ("dt<=.01", "dt<.2", "dt<.5", "dt<2", "dt>=2"):
             if not any(f",{t0c},{dtc}," in x for x in gen):
                 miss.append(f"spline gen {t0c} {dtc}")
     for nc in ("N=K+1", "N=30", "N.."):
@@ -255,7 +281,10 @@ def _check(oc, prop, tier, seed, replay, workdir):
                 out = os.path.join(workdir, f"g{g}_K{K}.ndjson")
                 progp = os.path.join(workdir, f"g{g}_K{K}.prog")
                 # case numbers start at cases*K so that the sizes N = random | K+1 | 30 | K+2 rotate over the degrees
-                args = ["--K", str(K), "--seed", str(seed), "--first", str(cfg["cases"] * K), "--cases", str(cfg["cases"]), "--nrand", str(cfg["nrand"]),
+                # every (group, degree) continues the list of admissible (t0, dt) combinations where the previous one stopped
+                combo0 = (cfg["gs"].index(g) * len(cfg["Ks"]) + cfg["Ks"].index(K)) * cfg["cases"]
+                args = ["--K", str(K), "--seed", str(seed), "--first", str(cfg["cases"] * K), "--cases", str(cfg["cases"]), "--combo0", str(combo0),
+                        "--nrand", str(cfg["nrand"]),
                         "--nlocal", str(cfg["nlocal"]), "--maxn", str(cfg["maxn"]), "--dense", str(cfg.get("dense", 0)), "--dump", progp]
                 runs.append((exe, args, out, progp, g, K))
         with cf.ThreadPoolExecutor(V.NCPU) as ex:
@@ -278,6 +307,10 @@ def _check(oc, prop, tier, seed, replay, workdir):
     # no vacuity: every clause family must have been exercised
     need = ["spline|", "eval|", "smooth|", "local|", "equiv|", "const|"]
     if not replay:
+        big_missing = missing_big_cells(oc.cov)
+        oc.extra["empty_large_t0_cells"] = big_missing
+        if big_missing:
+            raise V.ToolFailure(f"coverage: the stratum |t0| >= 1e9, dt <= 0.01 was not visited by: {big_missing}")
         seen = {k.split("|")[1] for k in oc.cov}
         for n in need:
             if n.rstrip("|") not in seen:
